@@ -122,9 +122,12 @@ def r_tagmap(run, F, T, check_registry=True, rule="R-TAGMAP"):
     vt_adt = F.adts.get("ipp::model::ValueTag")
     discr = {v["path"]: v["discr"] for v in vt_adt["variants"]} if vt_adt else {}
     to_tag = {}
+    array_paths = []
     for p in paths_of(tb):
         vs = arm_variants(p)
         r = p.ret
+        if V + "Array" in vs:
+            array_paths.append(p)
         for v in vs:
             if r[0] == "cast" and r[2][0] == "ctor" and r[2][1].startswith(VT):
                 to_tag[v] = ("tag", r[2][1])
@@ -188,7 +191,22 @@ def r_tagmap(run, F, T, check_registry=True, rule="R-TAGMAP"):
                "tag %s is decoded as %s whose to_tag is %s" % (tagv.split("::")[-1], k, tt), site(pb), key="%s|decode|%s" % (rule, tagv))
     # special arms
     a = to_tag.get(V + "Array")
-    run.ob(rule, "to_tag(Array) = first element's tag (else unknown)", a is not None and a[0] == "first-element" and a[1] and a[2] == VT + "Unknown", str(a), site(tb),
+    ok_a = a is not None and a[0] == "first-element" and a[1] and a[2] == VT + "Unknown"
+    if not ok_a and len(array_paths) == 2:
+        # match array.first() { Some(v) => v.to_tag(), None => Unknown as u8 }
+        some = none = False
+        for p in array_paths:
+            fc = [c for c in p.conds if c[0] == "match" and is_call(c[1], "core::slice::<impl [T]>::first") and field_of_self(c[1][2][0]) == ("Array", "0")]
+            if not fc:
+                continue
+            from .terms import opt_polarity
+            pol = opt_polarity(fc[-1])
+            if pol is True and is_call(p.ret, TO_TAG) and p.ret[2][0][0] == "proj" and p.ret[2][0][1] is fc[-1][1] or (pol is True and is_call(p.ret, TO_TAG) and p.ret[2][0][0] == "proj"):
+                some = True
+            if pol is False and p.ret[0] == "cast" and p.ret[2] == ("ctor", VT + "Unknown", []):
+                none = True
+        ok_a = some and none
+    run.ob(rule, "to_tag(Array) = first element's tag (else unknown)", ok_a, str(a), site(tb),
            key="%s|to_tag|Array" % rule)
     o = to_tag.get(V + "Other")
     run.ob(rule, "to_tag(Other) = its own tag", o == ("own-tag",), str(o), site(tb), key="%s|to_tag|Other" % rule)
